@@ -158,7 +158,7 @@ pub fn shrink_request(req: &Request, test: &mut dyn FnMut(&Request) -> bool, bud
                 }
                 let r = Request {
                     mode: base.mode,
-                    attr: cand.to_string(),
+                    attr: crate::req::print(cand),
                     item: base.item.clone(),
                 };
                 if !is_valid_request(&r) {
@@ -168,7 +168,7 @@ pub fn shrink_request(req: &Request, test: &mut dyn FnMut(&Request) -> bool, bud
                 test(&r)
             };
             let small = hdd_level(&attr, &|x| x, &mut t);
-            best.attr = small.to_string();
+            best.attr = crate::req::print(&small);
         }
         // item
         if let Some(item) = lex(&best.item) {
@@ -180,7 +180,7 @@ pub fn shrink_request(req: &Request, test: &mut dyn FnMut(&Request) -> bool, bud
                 let r = Request {
                     mode: base.mode,
                     attr: base.attr.clone(),
-                    item: cand.to_string(),
+                    item: crate::req::print(cand),
                 };
                 if !is_valid_request(&r) {
                     return false;
@@ -189,7 +189,7 @@ pub fn shrink_request(req: &Request, test: &mut dyn FnMut(&Request) -> bool, bud
                 test(&r)
             };
             let small = hdd_level(&item, &|x| x, &mut t);
-            best.item = small.to_string();
+            best.item = crate::req::print(&small);
         }
         if best == before || spent >= budget {
             break;
